@@ -297,9 +297,9 @@ func runHeaderCase(c *core.Case) *core.Result {
 
 func init() {
 	core.Register(&core.Check{
-		ID:    "C16",
-		Level: "fault_enumeration",
-		Rule: "case = one disk image taken at a commit-ok boundary of a PRNG history (both headers valid, previous state intact); for BOTH slots the complete sweeps are executed on the real open path: all 672 single-bit flips of the 84 header bytes, all 83 byte-prefix tears against the next commit's header, zeroed page/header, 24 random multi-byte damages, damage outside the header bytes, slot replaced by a copy of the other; plus both slots damaged and valid header pairs around the txid wrap-around (MaxUint64->0, 2^63 neighbourhood), checksums recomputed by the harness; oracle = harness' own header validation decides which slot must win: Open never panics, chooses that header, contents/root == recorded state of that txid, both damaged => error with the path lock released; distinct = history hash x base txid; non-trivial = > 100 variants",
+		ID:          "C16",
+		Level:       "fault_enumeration",
+		Rule:        "case = one disk image taken at a commit-ok boundary of a PRNG history (both headers valid, previous state intact); for BOTH slots the complete sweeps are executed on the real open path: all 672 single-bit flips of the 84 header bytes, all 83 byte-prefix tears against the next commit's header, zeroed page/header, 24 random multi-byte damages, damage outside the header bytes, slot replaced by a copy of the other; plus both slots damaged and valid header pairs around the txid wrap-around (MaxUint64->0, 2^63 neighbourhood), checksums recomputed by the harness; oracle = harness' own header validation decides which slot must win: Open never panics, chooses that header, contents/root == recorded state of that txid, both damaged => error with the path lock released; distinct = history hash x base txid; non-trivial = > 100 variants",
 		Assumptions: append([]string{"damage that keeps the 32-bit checksum valid is judged by the harness' own validation (then the damaged header legitimately counts as intact)"}, simdiskAssumptions...),
 		NumCases:    func(t string) int { return tierN(t, 32, 1200) },
 		CaseTimeout: func(t string) time.Duration { return 10 * time.Minute },
